@@ -216,7 +216,7 @@ mod real {
 
         /// wait until party `t` has arrived at a yield point after arrival number `c`, finished, or is blocked
         fn wait_progress(&self, t: usize, c: u64, long: bool) -> Progress {
-            let deadline = Instant::now() + Duration::from_millis(if long { 3000 } else { 1500 });
+            let deadline = Instant::now() + Duration::from_millis(if long { 8000 } else { 4000 });
             let mut sleepy = 0;
             let mut last_addr: Option<usize> = None;
             loop {
@@ -231,7 +231,7 @@ mod real {
                     let (st, _) = self
                         .sh
                         .cv
-                        .wait_timeout(st, Duration::from_micros(if sleepy == 0 { 150 } else { 300 }))
+                        .wait_timeout(st, Duration::from_micros(if sleepy == 0 { 150 } else { 500 }))
                         .unwrap_or_else(|e| e.into_inner());
                     if st.finished[t] {
                         return Progress::Finished;
@@ -259,7 +259,9 @@ mod real {
                         last_addr = None
                     }
                 }
-                if sleepy >= 4 {
+                // ~4 ms on one foreign futex word: long enough that a thread merely waiting for a briefly
+                // held allocator / runtime lock under heavy machine load is not mistaken for a blocked one
+                if sleepy >= 8 {
                     let st = lock(&self.sh);
                     if st.finished[t] {
                         return Progress::Finished;
@@ -278,9 +280,17 @@ mod real {
         /// wait until every party has reached its first yield point
         pub fn wait_all_started(&mut self) {
             for t in 0..self.n {
-                match self.wait_progress(t, 0, true) {
-                    Progress::Arrived | Progress::Finished => {}
-                    _ => self.hang = true,
+                // a starting thread cannot be blocked on a lock of the code under test: keep waiting
+                let deadline = Instant::now() + Duration::from_secs(5);
+                loop {
+                    match self.wait_progress(t, 0, true) {
+                        Progress::Arrived | Progress::Finished => break,
+                        Progress::Blocked if Instant::now() < deadline => continue,
+                        _ => {
+                            self.hang = true;
+                            break;
+                        }
+                    }
                 }
             }
         }
